@@ -141,7 +141,8 @@ func genCost(r *rng, thorough bool) string {
 	case 1:
 		return r.pickStr("1.5", "0.5", "2.0", "10.25", "1.", ".5", "1..2", "1.2.3", "3.000000000", "1.0000000000000000000")
 	case 2:
-		return r.pickStr("4294967295", "4294967296", "2147483648", "9223372036854775807", "9223372036854775808", "65536")
+		return r.pickStr("4294967295", "4294967296", "2147483648", "9223372036854775807", "9223372036854775808", "65536",
+			"4294967297", "8589934594", "4294968296")
 	case 3:
 		if thorough {
 			// random short string over the cost alphabet
